@@ -25,6 +25,8 @@ func init() {
 			{ID: "C16.R3", Text: "counters by kind: handler→its own Add* exactly once per accepted event; Add* increments its own field by 1", Run: c16r3},
 			{ID: "C16.R4", Text: "closed-stream scrape: sends and observers uses in Collect are dominated by GetObservers()≠nil; /states/offset tests IsOpen first", Run: c16r4},
 			{ID: "C16.R6", Text: "the snapshot gauges are those of the tracked position: a tracked offset's snapshot range is never changed in place by a later marker (same rule as C06.R3)", Run: c06r3},
+			{ID: "C16.R7", Text: "the position gauges move with the work done: acknowledgements and absorbed events move the tracked position (same rule as C04.R10)", Run: func(c *Ctx, id string) { ackMoves(c, id); absorbMoves(c, id) }},
+			{ID: "C16.R8", Text: "every vBucket is reported: every loop over a concurrent map runs to completion: the Range callback returns true on every path (frozen exception: markAbsentInstances stops at the error it returns)", Run: rangeComplete("metric.")},
 			{ID: "C16.R5", Text: "active-stream count: set at open, decremented once per final end only (same rules as C12.R1, C12.R2)", Run: func(c *Ctx, id string) { c12r1(c, id); c12r2counter(c, id) }},
 		},
 	})
